@@ -473,6 +473,26 @@ def c08(ctx):
             out.append(ok(R, key, 'Ok(value) is produced only after the slot job has finished (scheduler future Ready)', fn=p.name))
         else:
             out.append(bad(R, key, 'the result is returned before the slot job has finished', fn=p.name))
+    # (d') every future that SyncFuture::poll polls is polled with the caller's context: the waker in it is the only thing that gets the
+    # awaiting task polled again when there is no pool thread (a substitute context silently drops the registration)
+    if p:
+        key = 'SyncFuture::poll|polls-with-callers-context'
+        ctxarg = None
+        for l in range(1, p.arg_count + 1):
+            if 'core::task::wake::Context' in clean_ty(p.local_ty(l)):
+                ctxarg = l
+        sites = [(bb, t) for bb, t in p.calls() if (t['func'].get('fn') or '') in ('futures_util::future::future::FutureExt::poll_unpin', 'core::future::future::Future::poll', 'futures_core::stream::Stream::poll_next')]
+        wrong = []
+        for bb, t in sites:
+            e_ = expr_root(p.expr_of_operand(t['args'][1])) if len(t['args']) > 1 else ('?',)
+            if not (e_[0] == 'arg' and e_[1] == ctxarg):
+                wrong.append((bb, render(p.expr_of_operand(t['args'][1])) if len(t['args']) > 1 else '?'))
+        if ctxarg is None or not sites:
+            out.append(undecided(R, key, 'context parameter or inner polls not found'))
+        elif wrong:
+            out.append(bad(R, key, 'an inner future is polled with %s instead of the caller\'s context: whatever that future registers for its wake-up is not the awaiting task, which is then never polled again unless a pool thread happens to run the queue' % wrong[0][1][:80], loc=p.loc(wrong[0][0]), fn=p.name))
+        else:
+            out.append(ok(R, key, 'all %d inner polls receive the context this poll was called with' % len(sites), fn=p.name))
     # (e) drop order
     adt = F.adts.get('desync::SyncFuture')
     key = 'SyncFuture|drop-order'
